@@ -36,7 +36,8 @@ def events(nregs, guard_depth, ign, small):
                 ev.append(("op", name, a))
     if nregs >= 2:
         ev.append(("ite", ("r", nregs - 1), ("r", nregs - 2)))
-    ev.append(("ign", not ign))
+    if guard_depth == 0:
+        ev.append(("ign", not ign))      # the user's switch is only toggled outside guarded regions
     if guard_depth < 2:
         ev.append(("enter", 0))
         ev.append(("enter", 1))
@@ -86,9 +87,8 @@ class Machine:
         if kind == "leave":
             bak, _ = self.guards.pop()
             rt.restore_guard(bak)
-            # restore_guard puts back the flag as it was at entry; the user's own setting (possibly
-            # changed inside the region) is re-applied by the driver, as a user would
-            rt.ignore_errors(self.ign or not self.eff())
+            # nothing is re-synchronised here: if the region leaves the error-ignoring mode (or the
+            # guard) behind, the following calls run in the wrong mode and the oracles see it
             return ("leave",)
         try:
             if kind == "ite":
@@ -135,7 +135,10 @@ class Machine:
 
     def key(self):
         regs = tuple((type(r).__name__, r.value if hasattr(r, "value") else r.lc.value) for r in self.regs)
-        return (regs, self.ign, tuple(v for _, v in self.guards))
+        rt = self.rt
+        # the REAL mode triple of the library is part of the state (not only the driver's view of it)
+        real = (bool(rt._ignore_errors), None if rt.guard is None else rt.guard.value, rt.LinComb.ONE is rt.LinComb.ONE_SAFE)
+        return (regs, self.ign, tuple(v for _, v in self.guards), real)
 
     def close(self):
         while self.guards:
